@@ -278,3 +278,75 @@ pub fn run_fixed(a: &Args) {
     }
     out.finish();
 }
+
+/// Concurrent clone / query / drop of one handle by many threads at once: the
+/// reference count must come back to one, nothing may be freed while the base
+/// handle lives, and the heap object must be freed exactly once afterwards.
+pub fn run_race(a: &Args) {
+    let mut out = Out::new(&a.out, "c20race", 200_000);
+    let probe = Timestamp::from_second(1719792000).unwrap();
+    let nthreads = 8usize;
+    let rounds = if a.quick() { 12 } else { 200 };
+    let iters = if a.quick() { 3000 } else { 20_000 };
+    for round in 0..rounds {
+        for kind in ["tzif", "posix", "fixed", "static", "utc", "unknown"] {
+            let v = round as i64;
+            ENABLED.store(true, Ordering::SeqCst);
+            let r = guard(|| {
+                let base = make(kind, v);
+                let (tag, addr, cnt0) = base.__verif_repr();
+                let from = NEXT.load(Ordering::SeqCst);
+                let want = expected_offset(kind, v);
+                let bad_answers = std::sync::Arc::new(AtomicUsize::new(0));
+                let barrier = std::sync::Arc::new(std::sync::Barrier::new(nthreads));
+                let mut hs = Vec::new();
+                for t in 0..nthreads {
+                    let mine = base.clone();
+                    let (bad, barrier) = (bad_answers.clone(), barrier.clone());
+                    let mut rng = Rng::new(a.seed, 2000 + (round * 64 + t) as u64);
+                    hs.push(std::thread::spawn(move || {
+                        barrier.wait();
+                        let mut held: Vec<TimeZone> = Vec::new();
+                        for _ in 0..iters {
+                            match rng.next() % 4 {
+                                0 | 1 => held.push(mine.clone()),
+                                2 => {
+                                    if !held.is_empty() {
+                                        let i = (rng.next() % held.len() as u64) as usize;
+                                        let z = held.swap_remove(i);
+                                        if z.to_offset(probe).seconds() != want || z != mine {
+                                            bad.fetch_add(1, Ordering::Relaxed);
+                                        }
+                                        drop(z);
+                                    }
+                                }
+                                _ => {
+                                    if held.len() > 16 {
+                                        held.truncate(4);
+                                    }
+                                }
+                            }
+                        }
+                        drop(held);
+                        drop(mine);
+                    }));
+                }
+                for h in hs {
+                    h.join().unwrap();
+                }
+                let (_, _, cnt1) = base.__verif_repr();
+                let frees_live = if cnt0.is_some() { frees_covering(addr, from) } else { 0 };
+                drop(base);
+                let frees_after = if cnt0.is_some() { frees_covering(addr, from) } else { 0 };
+                (tag, cnt0, cnt1, frees_live, frees_after, bad_answers.load(Ordering::SeqCst))
+            });
+            ENABLED.store(false, Ordering::SeqCst);
+            match r {
+                Ok((tag, cnt0, cnt1, fl, fa, bad)) => out.emit(json!({"op":"race","cls":kind,"kind":kind,"st":"ok","tag":tag,"counted": if cnt0.is_some() {1} else {0},
+                    "strong_before":cnt0.unwrap_or(0),"strong_after":cnt1.unwrap_or(0),"frees_live":fl,"frees_after":fa,"bad_answers":bad,"threads":nthreads,"iters":iters})),
+                Err(m) => out.emit(json!({"op":"race","cls":kind,"kind":kind,"st":"panic","msg":m,"tag":0,"counted":0,"strong_before":0,"strong_after":0,"frees_live":0,"frees_after":0,"bad_answers":0,"threads":nthreads,"iters":iters})),
+            }
+        }
+    }
+    out.finish();
+}
